@@ -56,7 +56,7 @@ def judge(ctx, name, fn, a, b, phi, source):
     # elementwise: array result == scalar results (sampled)
     for j in np.unique(np.linspace(0, a.size - 1, min(a.size, 8)).astype(int)):
         with probes.quiet():
-            sj = float(fn(float(a[j]), float(b[j])))
+            sj = float(np.asarray(fn(float(a[j]), float(b[j]))).ravel()[0])
         # python-float a**2 goes through libm pow, numpy arrays through a*a: allow the resulting ulp-level difference
         same_j = (sj == phi[j]) or (np.isnan(sj) and np.isnan(phi[j])) or abs(sj - phi[j]) <= 8 * EPS * abs(phi[j])
         ctx.true("elementwise", same_j, name + "/array-differs-from-scalar-call", {"a": a[j], "b": b[j], "array": phi[j], "scalar": sj}, cls=cls)
@@ -150,8 +150,10 @@ def direct(ctx, rng, idx):
     phi = fn(a, b)
     judge(ctx, name, fn, a, b, phi, "direct")
     # scalar calls
+    # scalar calls: the twins are scalar calls too (python-float ** goes through libm pow, arrays through a*a)
+    fs = lambda x, y: np.array([float(fn(float(xi), float(yi))) for xi, yi in zip(np.atleast_1d(x), np.atleast_1d(y))])
     for j in range(5):
-        judge(ctx, name, fn, float(a[j]), float(b[j]), fn(float(a[j]), float(b[j])), "direct")
+        judge(ctx, name, fs, float(a[j]), float(b[j]), fn(float(a[j]), float(b[j])), "direct")
     ctx.nontrivial(name, a[:8], b[:8])
 
 
